@@ -129,7 +129,12 @@ def _get_binding(obj: tp.Callable) -> AbstractBinding:
         unmarshaller: unmarshals.AbstractUnmarshaller = unmarshals.unmarshaller(
             param.annotation
         )
-        binding[name] = binding[i] = unmarshaller
+        # Only register an unmarshaller under the keys this parameter can be bound by:
+        #   its position if it may be passed positionally, its name if by keyword.
+        if param.kind in (param.POSITIONAL_ONLY, param.POSITIONAL_OR_KEYWORD):
+            binding[i] = unmarshaller
+        if param.kind in (param.POSITIONAL_OR_KEYWORD, param.KEYWORD_ONLY):
+            binding[name] = unmarshaller
         has_kwd_only = has_kwd_only or param.kind == inspect.Parameter.KEYWORD_ONLY
         has_pos_or_kwd = (
             has_pos_or_kwd or param.kind == inspect.Parameter.POSITIONAL_OR_KEYWORD
@@ -524,7 +529,7 @@ _BINDING_CLS_MATRIX: dict[_Truth, type[AbstractBinding]] = {
         has_args=True,
         has_kwargs=False,
         has_pos_or_kwd=True,
-    ): PosArgsBinding,
+    ): PosKwdArgsBinding,
     _Truth(
         has_pos_only=False,
         has_kwd_only=False,
@@ -538,7 +543,7 @@ _BINDING_CLS_MATRIX: dict[_Truth, type[AbstractBinding]] = {
         has_args=True,
         has_kwargs=True,
         has_pos_or_kwd=True,
-    ): ArgsKwargsBinding,
+    ): AnyParamKindBinding,
     _Truth(
         has_pos_only=False,
         has_kwd_only=True,
@@ -580,7 +585,7 @@ _BINDING_CLS_MATRIX: dict[_Truth, type[AbstractBinding]] = {
         has_args=True,
         has_kwargs=False,
         has_pos_or_kwd=True,
-    ): PosOrKwdBinding,
+    ): PosKwdArgsBinding,
     _Truth(
         has_pos_only=False,
         has_kwd_only=True,
@@ -594,7 +599,7 @@ _BINDING_CLS_MATRIX: dict[_Truth, type[AbstractBinding]] = {
         has_args=True,
         has_kwargs=True,
         has_pos_or_kwd=True,
-    ): KwdArgsKwargsBinding,
+    ): AnyParamKindBinding,
     _Truth(
         has_pos_only=True,
         has_kwd_only=False,
@@ -622,7 +627,7 @@ _BINDING_CLS_MATRIX: dict[_Truth, type[AbstractBinding]] = {
         has_args=False,
         has_kwargs=True,
         has_pos_or_kwd=True,
-    ): PosKwargsBinding,
+    ): PosKwdKwargsBinding,
     _Truth(
         has_pos_only=True,
         has_kwd_only=False,
@@ -636,7 +641,7 @@ _BINDING_CLS_MATRIX: dict[_Truth, type[AbstractBinding]] = {
         has_args=True,
         has_kwargs=False,
         has_pos_or_kwd=True,
-    ): PosArgsBinding,
+    ): PosKwdArgsBinding,
     _Truth(
         has_pos_only=True,
         has_kwd_only=False,
@@ -671,7 +676,7 @@ _BINDING_CLS_MATRIX: dict[_Truth, type[AbstractBinding]] = {
         has_args=False,
         has_kwargs=True,
         has_pos_or_kwd=False,
-    ): PosArgsKwargsBinding,
+    ): PosKwdKwargsBinding,
     _Truth(
         has_pos_only=True,
         has_kwd_only=True,
